@@ -21,4 +21,7 @@ def Ty_Kind (U : Flamego.Inject.Universe) (t : Ty) : Int := if U.isInterface t t
 /-- `k.Implements(t)` -/
 def Ty_Implements (U : Flamego.Inject.Universe) (k t : Ty) : Bool := U.implements k t
 
+/-- `reflect.ValueOf(v)`: the value's identity -/
+def reflect_ValueOf (v : Flamego.GoSem.Any) : RVal := v
+
 end Flamego.Lib
